@@ -850,7 +850,7 @@ def main(run, shard=(0, 1)) -> None:
     _preflight(run)
     probe = _probe()
     probe.start()
-    n_graphs = 100000 if thorough else 6000
+    n_graphs = 150000 if thorough else 6000
     for i in range(n_graphs):
         if not mine(i, shard):
             continue
@@ -862,7 +862,7 @@ def main(run, shard=(0, 1)) -> None:
         if mine(j, shard):
             check_graph(run, sub_rng(run.seed, 'fixed', j), spec, 'fixed', {'engine': 'fixed', 'index': j, 'label': label},
                         all_modes=True, sample=j == 0)
-    n_kv = 100000 if thorough else 5000
+    n_kv = 150000 if thorough else 5000
     for i in range(n_kv):
         if not mine(i, shard):
             continue
